@@ -430,26 +430,6 @@ example : rv32i_encode_sound ⟨0x1000#32⟩ ⟨"addi", [.xreg 1, .xreg 2, .num 
     (.opImm .addi 1 2 0xffb) rfl rfl = ⟨rfl, rfl⟩ := rfl
 example : Asm.encode ⟨0x1000#32⟩ ⟨"beq", [.xreg 1, .xreg 2, .num 0x1010], 0⟩ = .ok 0x00208863#32 := rfl
 
-/-- **Defect left in the code (C01 iii).**  `fence` without operands is the manual's pseudo-instruction
-    `fence iorw, iorw` (0x0ff0000f); the table's alias row emits 0x0000000f, a FENCE with empty predecessor and
-    successor sets. -/
-theorem fence_bare_counterexample (ctx : Ctx) :
-    Asm.encode ctx ⟨"fence", [], 0⟩ = .ok 0x0000000f#32 ∧
-    Arch.decode 0x0000000f#32 = some (.fence 0 0 0 0 0) ∧
-    Arch.encode (meaningFence 0) = 0x0ff0000f#32 := ⟨rfl, by decide, by decide⟩
-
-/-- **Defect left in the code.**  `fence` with flag operands can never be assembled: the alias row `fence`
-    (OP_NONE) sets `modifiers.rm = 7` and `continue`s, the OP_FENCE row then evaluates
-    `operands[operand_count - 1]` with `operand_count == 0` (read of `operands[-1]`: undefined behaviour; the
-    sanitised build aborts, the plain build reads stack garbage and reports "Unknown operands combo"). -/
-theorem fence_flags_fault_counterexample (ctx : Ctx) :
-    Asm.encode ctx ⟨"fence", [], 0x21#8⟩ = .fault := by
-  rw [Asm.encode]
-  simp only [show ("fence" == "li" || "fence" == "call" || "fence" == "tail") = false by decide, Bool.false_eq_true,
-    if_false, List.length_nil, show ¬ (0 > 6) by decide]
-  rw [encodeRows_filter]
-  rfl
-
 /-- the walk over the emitted bytes consumes exactly them: every word the encoder emits has the 32-bit length
     marker, so `disasm_riscv` reports length 4 -/
 theorem rv32i_encode_len (ctx : Ctx) (s : Stmt) (w : BitVec 32) (hk : (kindOf s.mnemonic).isSome)
